@@ -289,6 +289,23 @@ def check_run(rc):
         if not q.ok:
             raise Reject('expression not evaluable on this message (%s)' % q.exc_type)
         l4[e] = q.value
+    # a sibling message for the "one runner, several messages" clause: the last subset of this one as a message of its own
+    # (other values, other subset count), or the same bytes under another file name
+    sibling, l4_sib = None, {}
+    n_sub = rc.case.nsub
+    sb = sut.call(lambda: sut.Encoder().process(msg.subset([n_sub - 1])).serialized_bytes) if n_sub > 1 else None
+    o2 = sut.call(decoder().process, sb.value if (sb is not None and sb.ok) else rc.case.bytes, file_path='OTHER-%s.bufr' % rc.case.key()[:6])
+    if o2.ok:
+        sibling = o2.value
+        for e in rc.exprs:
+            if e.lstrip().startswith('%'):
+                q = sut.call(_MQ.query, sibling, e)
+            else:
+                q = sut.call(lambda: _DQ.query(sibling, e).all_values())
+            if not q.ok:
+                sibling = None
+                break
+            l4_sib[e] = q.value
     eff = rc.arg if rc.arg is not None else (rc.pragma if rc.pragma is not None else 1)
     md_only = all(e.lstrip().startswith('%') for e in rc.exprs + ['%length'])   # the literal/comment embeds do not count
     md_only = all(e.lstrip().startswith('%') for e in rc.exprs)
@@ -328,31 +345,44 @@ def check_run(rc):
             want_code, want_subs, st = scriptref.substitute(script)
             if sr.code_string != want_code or dict(sr.substitutions) != want_subs:
                 out.fail('preprocessed script of the runner differs', script=script, got=sr.code_string)
+        def verify(v, m, l4m, what=''):
+            if v.get('PBK_BUFR_MESSAGE') is not m or v.get('PBK_FILENAME') != m.filename:
+                out.fail(what + 'the message / file name variables are not bound', script=script)
+            nf = v.get('names_in_a_function')
+            if not (isinstance(nf, tuple) and nf[0] == m.filename and nf[1] is m):
+                out.fail(what + 'the message / file name variables are not visible inside a function of the script', script=script)
+            if v.get('note') != '${%edition} is not a query here # nor a comment' or v.get('tail') != '${%length}':
+                out.fail(what + 'an embedded query inside a string literal was replaced', script=script, note=v.get('note'), tail=v.get('tail'))
+            for i, e in enumerate(rc.exprs):
+                want = l4m[e] if e.lstrip().startswith('%') else flatten_level(l4m[e], level)
+                got = v.get('r%d' % i)
+                if got != want or type(got) is not type(want):
+                    out.fail(what + 'a variable does not hold the query result at nesting level %d' % level, script=script, expr=e,
+                             got=got, expected=want, full_nesting=l4m[e])
+                    return False
+            if rc.dup is not None:
+                e = rc.exprs[rc.dup % len(rc.exprs)]
+                want = l4m[e] if e.lstrip().startswith('%') else flatten_level(l4m[e], level)
+                if v.get('again') != want:
+                    out.fail(what + 'a repeated expression (differently padded) is not bound to the same result', script=script, expr=e,
+                             got=v.get('again'), expected=want)
+            return True
         r = sut.call(sr.run, msg)
         if not r.ok:
             return out.fail('running the script raised %s@%s' % (r.exc_type, r.frame), script=script, error=r.msg, level=level)
-        v = r.value
-        results[level] = v
-        if v.get('PBK_BUFR_MESSAGE') is not msg or v.get('PBK_FILENAME') != msg.filename:
-            out.fail('the message / file name variables are not bound', script=script)
-        nf = v.get('names_in_a_function')
-        if not (isinstance(nf, tuple) and nf[0] == msg.filename and nf[1] is msg):
-            out.fail('the message / file name variables are not visible inside a function of the script', script=script)
-        if v.get('note') != '${%edition} is not a query here # nor a comment' or v.get('tail') != '${%length}':
-            out.fail('an embedded query inside a string literal was replaced', script=script, note=v.get('note'), tail=v.get('tail'))
-        for i, e in enumerate(rc.exprs):
-            want = l4[e] if e.lstrip().startswith('%') else flatten_level(l4[e], level)
-            got = v.get('r%d' % i)
-            if got != want or type(got) is not type(want):
-                out.fail('a variable does not hold the query result at nesting level %d' % level, script=script, expr=e,
-                         got=got, expected=want, full_nesting=l4[e])
-                return out
-        if rc.dup is not None:
-            e = rc.exprs[rc.dup % len(rc.exprs)]
-            want = l4[e] if e.lstrip().startswith('%') else flatten_level(l4[e], level)
-            if v.get('again') != want:
-                out.fail('a repeated expression (differently padded) is not bound to the same result', script=script, expr=e,
-                         got=v.get('again'), expected=want)
+        results[level] = r.value
+        if not verify(r.value, msg, l4):
+            return out
+        if level == eff and sibling is not None:
+            # one runner, several messages (the script command runs one runner over every message of every file): another
+            # message, then the first one again
+            out.classes.append('one_runner_several_messages')
+            for m, l4m, what in ((sibling, l4_sib, 'same runner, next message: '), (msg, l4, 'same runner, first message again: ')):
+                r2 = sut.call(sr.run, m)
+                if not r2.ok:
+                    return out.fail(what + 'running the script raised %s@%s' % (r2.exc_type, r2.frame), script=script, error=r2.msg)
+                if not verify(r2.value, m, l4m, what):
+                    return out
     return out
 
 
